@@ -13,6 +13,19 @@ TB_VALUE = TB_COMMON + [
 ]
 
 PROPS = {
+    "C15": {
+        "n_quick": 420, "n_thorough": 9000,
+        "check_fn": "k15_check",
+        "rule": "generated wholly known values of generated types (depth 3, nulls at any depth, empty collections, numbers of every pool class, non-ASCII strings; 1/6 marked or weakened "
+                "for the rejection clause) x a constraint they conform to with dynamic placeholders at arbitrary positions; documents from a JSON grammar (depth 3; duplicate keys equal or "
+                "conflicting, nested nulls, 15 number spellings, strings / keys that normalise); non-trivial = every marshal case and every structured document",
+        "trusted_base": TB_VALUE + ["encoding/json is the byte<->token mapping on both sides (harness parses the produced bytes into token trees, serialises generated trees to bytes)"],
+        "assumptions": ["numbers with binary exponent beyond +-600 are not generated (decimal expansion cost in the model)", "capsule values are not generated (their encoding is delegated to encoding/json)"],
+        "refuted": ["C15_integer_text_refuted (KF-C15-1)"],
+        "partial": ["round trip is a theorem for strings, booleans, nulls and for the dynamic wrapper (reduction to the static case); for numbers and structured values the round-trip property is "
+                    "evaluated on the model for every generated value (k15_prop by vm_compute) and on the implementation by the oracle",
+                    "KF-C15-2: with placeholders nested below the top of the constraint, nulls and empty collections lose their type (known finding)"],
+    },
     "C18": {
         "n_quick": 260, "n_thorough": 6000,
         "check_fn": "k18_check",
